@@ -1213,6 +1213,14 @@ def main():
     if write_if_changed(os.path.join(OUT, "MmrIndex.lean"), "\n".join(out)):
         changed.append("MmrIndex")
 
+    # ---------------------------------------------------------------- BEGIN hook: functions with loops (tools/rs2lean_loops.py)
+    try:
+        import rs2lean_loops
+        rs2lean_loops.run(status, changed, fns)
+    except Exception as ex:  # never fatal for the loop-free part; recorded as a refusal
+        fail("loops", f"internal: {type(ex).__name__}: {ex}")
+    # ---------------------------------------------------------------- END hook
+
     status["smt_signatures"] = smt_sigs
     status["changed_files"] = changed
     with open(os.path.join(OUT, "status.json"), "w") as f:
